@@ -103,6 +103,13 @@ def verify_contract(world, k, use_cvc5=True):
     try:
         rep.info = source_info(k)
         fn = k.load_ast()
+        # a decorator changes what the name denotes (a cache, a wrapper ...): only the transparent ones are understood
+        for d in getattr(fn, 'decorator_list', []):
+            import ast as _ast
+            txt = _ast.unparse(d)
+            if txt not in ('staticmethod', 'classmethod', 'property', 'typing.final', 'abc.abstractmethod') and not txt.endswith('.setter') \
+                    and txt not in (getattr(k, 'decorators', None) or ()):
+                raise Unsupported('function %s is decorated with @%s, which its contract does not account for' % (k.qual, txt))
         ex = Exec(fn, k, world, k.qual)
         vcs = ex.run()
         rep.stats = {'paths': ex.paths, 'interpreted': ex.interpreted, 'dropped_logging': ex.dropped,
